@@ -25,7 +25,9 @@ RULE = ("SVC: every schedule (tuple of 1+epochs permutations) enumerated by TLC 
         "random two-class integer data (n 4..40 quick / 4..80 thorough, 1..5 features, separable / overlapping / "
         "duplicated rows of both classes, C in 1/8..100, epochs 1..4, tol 2^-7..2^-13, 4 kernels) with injected "
         "random schedules and every 25th fit left to the unseeded RNG.  SVR: seeded random regression sets "
-        "(n 4..30 / 4..60, eps in {0, 0.1, 1/8, 1/4, 1/2}).  Kernels: exhaustive pairs over {-2..2}^2 for 15 kernel "
+        "(n 4..30 / 4..60, eps in {0, 0.1, 1/8, 1/4, 1/2}); every 6th SVR fit has its targets confined to a band that "
+        "is narrow relative to eps (constant, range <= eps, eps < range <= 2 eps skewed with 1-2 outliers at one "
+        "end, exactly 2 eps, 2 eps + one step, eps = 0), for all kernels.  Kernels: exhaustive pairs over {-2..2}^2 for 15 kernel "
         "settings (polynomial degrees 1, 2, 3 and the fractional 1/2, 3/2, 5/2, 1/4, 3/4, 5/4), random vectors, Gram "
         "matrices n<=5/6; every 12th SVC and every 16th SVR fit uses a fractional-degree polynomial kernel on "
         "non-negative features.  A fit is non-trivial when some coefficient is at a bound "
@@ -118,6 +120,7 @@ MUST_HIT = ("SvcFit", "SvcSched", "SvcRand", "SvcUnseeded", "Svc_linear", "Svc_r
             "SvrBoundAndInside", "SvrDupRows", "SvrExpansion",
             "K_linear", "K_rbf", "K_poly", "K_sigmoid", "RbfTaylor", "SigTaylor",
             "KRoot2", "KRoot4", "KRootUndefined", "FitRootClosed",
+            "SvrNarrowBand", "SvrBandSkewed", "SvrConstantTargets", "SvrNoSv", "SvrNoSvKKT",
             "Gram_linear", "Gram_rbf", "Gram_sigmoid", "RbfFunctional", "SigAddition", "GramSingular")
 
 
